@@ -1,5 +1,4 @@
-(* mayMatchNumber: exact (hence sound) for patterns of at most 5040 bytes
-   without the "x-]" quirk. *)
+(* mayMatchNumber: exact (hence sound) for patterns without the "x-]" quirk. *)
 From PV Require Import Lib.Bytes Lib.ByteRange Gen.NumberAutomaton Model.Makepat Spec.StrMatch Spec.CNumber
   Proofs.MakepatBasics Proofs.MakepatNFA Proofs.MakepatChain Proofs.MakepatChainSem
   Proofs.MakepatStrMatch Proofs.MakepatMalformed Proofs.MakepatReach
@@ -32,22 +31,19 @@ Proof. apply wf_b_wf. vm_compute. reflexivity. Qed.
 Lemma number_ranges : ranges_ok number.
 Proof. apply ranges_b_ok. vm_compute. reflexivity. Qed.
 
-Lemma number_nlen : nlen number <= 13.
-Proof. vm_compute. discriminate. Qed.
-
 (* ---------- the theorem ---------- *)
 
 Lemma is_c_number_nil : is_c_number [] = false.
 Proof. vm_compute. reflexivity. Qed.
 
 Theorem may_match_number_exact : forall p : str,
-  N.of_nat (length p) <= 5040 -> range_to_rbracket p = false ->
+  range_to_rbracket p = false ->
   exists b e, may_match_number p = Ok (b, e) /\
     (e = true <-> malformed p = true) /\
     (e = false ->
      (b = true <-> exists s, is_bytes s /\ str_match p s = Some true /\ is_c_number s = true)).
 Proof.
-  intros p Hlen G. unfold may_match_number. destruct p as [|c0 p0] eqn:Ep.
+  intros p G. unfold may_match_number. destruct p as [|c0 p0] eqn:Ep.
   - exists false, false. split; [reflexivity|]. split; [split; discriminate|]. intros _. split; [discriminate|].
     intros (s & _ & M & Nn). unfold str_match in M. cbn in M. destruct s; [|discriminate].
     rewrite is_c_number_nil in Nn. discriminate.
@@ -55,23 +51,21 @@ Proof.
     destruct (compile_total p) as [r Ec]. rewrite Ec. destruct r as [a|].
     + assert (Hm : malformed p = false).
       { destruct (malformed p) eqn:Em; [|reflexivity]. apply compile_fails_iff_malformed in Em. congruence. }
-      destruct (compile_chain p a) as (es & P & ->); [lia|exact Ec|].
+      destruct (compile_chain p a Ec) as (es & P & ->).
       pose proof (chain_wf es) as Hwa. set (a := chain_from 0 [] es) in *.
-      assert (Hsize : nlen a * nlen number <= 65536).
-      { unfold a. rewrite chain_from_nlen. pose proof (parses_nonstars _ _ P). pose proof number_nlen. nia. }
-      destruct (intersect_exact a number Hwa number_wf Hsize) as (i & Ei & Hwi & Hri & Hi).
+      destruct (intersect_exact a number Hwa number_wf) as (i & Ei & Hwi & Hri & Hi).
       rewrite Ei. destruct (can_match_exact i Hwi (Hri (or_intror number_ranges))) as (b & Eb & Hb).
       rewrite Eb. exists b, false. split; [reflexivity|]. split; [rewrite Hm; split; discriminate|]. intros _.
       rewrite Hb. split.
       * intros (s & Hs & M). exists s. split; [exact Hs|]. rewrite Hi in M. injection M as M.
         apply andb_true_iff in M as [M1 M2].
-        destruct (match_is_strmatch_partial p a s) as (x & Mx & Sx); [lia|exact Hs|exact G|exact Ec|].
+        destruct (match_is_strmatch_partial p a s) as (x & Mx & Sx); [exact Hs|exact G|exact Ec|].
         rewrite (matchp_accepts a s Hwa) in Mx. injection Mx as <-. rewrite M1 in Sx.
         split; [exact Sx|].
         pose proof (number_exact s) as Ne. rewrite (matchp_accepts number s number_wf), M2 in Ne.
         injection Ne as <-. reflexivity.
       * intros (s & Hs & Sx & Nn). exists s. split; [exact Hs|]. rewrite Hi. f_equal.
-        destruct (match_is_strmatch_partial p a s) as (x & Mx & Sx'); [lia|exact Hs|exact G|exact Ec|].
+        destruct (match_is_strmatch_partial p a s) as (x & Mx & Sx'); [exact Hs|exact G|exact Ec|].
         rewrite Sx in Sx'. injection Sx' as <-. rewrite (matchp_accepts a s Hwa) in Mx. injection Mx as ->.
         pose proof (number_exact s) as Ne. rewrite (matchp_accepts number s number_wf), Nn in Ne.
         injection Ne as ->. reflexivity.
@@ -81,19 +75,19 @@ Qed.
 
 (* the direction the caller relies on: "false" means that no numeric word is matched *)
 Corollary may_match_number_sound : forall p : str,
-  N.of_nat (length p) <= 5040 -> range_to_rbracket p = false ->
+  range_to_rbracket p = false ->
   may_match_number p = Ok (false, false) ->
   forall s, is_bytes s -> str_match p s = Some true -> is_c_number s = false.
 Proof.
-  intros p Hlen G H s Hs M. destruct (may_match_number_exact p Hlen G) as (b & e & E & _ & Hb).
+  intros p G H s Hs M. destruct (may_match_number_exact p G) as (b & e & E & _ & Hb).
   rewrite H in E. injection E as <- <-. destruct (is_c_number s) eqn:Nn; [|reflexivity].
   assert (C : false = true) by (apply (Hb eq_refl); exists s; auto). discriminate.
 Qed.
 
 (* ---------- compiled patterns satisfy the hypotheses of the automaton theorems ---------- *)
 
-Theorem compile_wf p a : N.of_nat (length p) < 65536 -> compile p = Ok (Some a) -> wf a.
-Proof. intros Hl Hc. destruct (compile_chain p a Hl Hc) as (es & _ & ->). apply chain_wf. Qed.
+Theorem compile_wf p a : compile p = Ok (Some a) -> wf a.
+Proof. intros Hc. destruct (compile_chain p a Hc) as (es & _ & ->). apply chain_wf. Qed.
 
 Lemma number_wf_ranges : wf number /\ ranges_ok number.
 Proof. exact (conj number_wf number_ranges). Qed.
